@@ -373,6 +373,8 @@ class SymmetryTranslator:
                 else:
                     for t in [stm.weight, stm.priority, *stm.terms]:
                         global_vars.update(collect_ast(t, "Variable"))
+                for term in elem.terms:  # the tuple of the element is visible outside of its condition
+                    global_vars.update(collect_ast(term, "Variable"))
                 for symmetry_bundle in list(
                     self.largest_symmetric_group(condition, global_vars, list(elem.terms) + list(stm.body), True)
                 ):
